@@ -773,6 +773,7 @@ func (b *Builder) rangeStmtX(s *ast.RangeStmt, x *Term) {
 	h2 := b.newNode(NRange, s.Pos())
 	iv := b.tempVar("ridx", nil)
 	iv.Pinned = true
+	iv.Captured = true
 	for _, h := range []*Node{h1, h2} {
 		h.X = varTerm(xt)
 		h.KeyVar, h.ValVar = kv, vv
@@ -1121,6 +1122,7 @@ func (b *Builder) markCaptured(lit *ast.FuncLit) {
 		}
 		v := b.useVar(o)
 		v.Pinned = true
+		v.Captured = true
 		if assigned[o] {
 			v.Name = "vol:" + v.Name
 		}
